@@ -9,13 +9,13 @@
 (*   run | stopi | stopr                                                   *)
 (*   inv    {c, h, fail, pre}       caller c enters AsyncCall              *)
 (*   start  {c, lane, g}            callee entered: lane index it was      *)
-(*                                  given, goroutine it runs on            *)
+(*                                  given (g: goroutine, for the reader)   *)
 (*   end    {c}                     callee about to return                 *)
 (*   ret    {c, r}                  reply received by the caller           *)
 (*   cancel {c}                                                            *)
-(*   quiet  {alive, term}           every goroutine is parked: number of   *)
-(*                                  consumer goroutines left, owner's wait *)
-(*                                  for termination has returned           *)
+(*   quiet  {alive, term}           every goroutine is parked: some        *)
+(*                                  goroutine of the executor is left,     *)
+(*                                  owner's wait for termination returned  *)
 (* Not logged, inferred by TLC (silent steps): the moment a submission     *)
 (* takes effect and its outcome (acceptance order!), a consumer skipping a *)
 (* call whose context ended, Stop closing a lane; a consumer leaving is    *)
@@ -24,12 +24,10 @@ EXTENDS Lanes, Json, IOUtils
 
 TraceLog == ndJsonDeserialize(IOEnv.VERIF_TRACE)
 
-VARIABLES pos, gor   \* line of the log; lane -> goroutine id seen on it (0: none yet)
-tvars == <<allvars, pos, gor>>
+VARIABLES pos   \* line of the log
+tvars == <<allvars, pos>>
 
-NoGor == [x \in LaneIds |-> 0]
-
-TraceInit == pos = 1 /\ gor = NoGor /\ InitWith("line", 1, 0, [h \in Hashes |-> 0])
+TraceInit == pos = 1 /\ InitWith("line", 1, 0, [h \in Hashes |-> 0])
 
 TReset(e) ==
   /\ kind' = e.kind /\ nl' = e.nl /\ qsize' = e.qsize
@@ -51,7 +49,6 @@ TReset(e) ==
   /\ sto' = [x \in LaneIds |-> <<>>]
   /\ nst' = [c \in Calls |-> 0]
   /\ last' = [op |-> "init", kind |-> e.kind, nl |-> e.nl, qsize |-> e.qsize]
-  /\ gor' = NoGor
 
 (* IndexOf must be the routing function: in range, and the lane the calls  *)
 (* with that hash really run on                                            *)
@@ -60,15 +57,12 @@ TIdx(e) ==
   /\ slot[e.h] \in {Unknown, e.r}
   /\ slot' = [slot EXCEPT ![e.h] = e.r]
   /\ UNCHANGED <<kind, nl, qsize, started, up, qclosed, stopst, queue, cs, cw, rj, info, lane, ctxd,
-                 late, rv, acc, sto, nst, last, gor>>
+                 late, rv, acc, sto, nst, last>>
 
-(* the index handed to the callee is the lane's, and a lane is one goroutine *)
+(* the index handed to the callee is the index of the lane the call runs on *)
 TStart(e) ==
   /\ Step([op |-> "start", c |-> e.c])
   /\ lane[e.c] = e.lane
-  /\ gor[e.lane] \in {0, e.g}
-  /\ \A x \in LaneIds : x # e.lane => gor[x] # e.g
-  /\ gor' = [gor EXCEPT ![e.lane] = e.g]
 
 (* Every goroutine is parked.  A consumer leaving is not logged and is seen  *)
 (* only here (leaving earlier or later changes nothing a caller or callee   *)
@@ -77,9 +71,9 @@ TStart(e) ==
 TQuiet(e) ==
   /\ ExitSet({x \in LaneIds : CanExit(x)})
   /\ Quiescent'
-  /\ e.alive = Cardinality({x \in LaneIds : up'[x]})
+  /\ e.alive = (\E x \in LaneIds : up'[x])
   /\ e.term = (started /\ \A x \in LaneIds : ~up'[x])
-  /\ UNCHANGED <<last, gor>>
+  /\ UNCHANGED last
 
 Consume ==
   /\ pos <= Len(TraceLog) /\ pos' = pos + 1
@@ -88,16 +82,16 @@ Consume ==
          [] e.ev = "idx"    -> TIdx(e)
          [] e.ev = "start"  -> TStart(e)
          [] e.ev = "quiet"  -> TQuiet(e)
-         [] e.ev = "run"    -> Step([op |-> "run"]) /\ UNCHANGED gor
-         [] e.ev = "stopi"  -> IF stopst = "no" THEN Step([op |-> "stopi"]) /\ UNCHANGED gor
-                               ELSE stopst = "done" /\ UNCHANGED <<allvars, gor>>   \* Stop again: no-op
-         [] e.ev = "stopr"  -> IF stopst = "ing" THEN Step([op |-> "stopr"]) /\ UNCHANGED gor
-                               ELSE stopst = "done" /\ UNCHANGED <<allvars, gor>>
+         [] e.ev = "run"    -> Step([op |-> "run"])
+         [] e.ev = "stopi"  -> IF stopst = "no" THEN Step([op |-> "stopi"])
+                               ELSE stopst = "done" /\ UNCHANGED allvars   \* Stop again: no-op
+         [] e.ev = "stopr"  -> IF stopst = "ing" THEN Step([op |-> "stopr"])
+                               ELSE stopst = "done" /\ UNCHANGED allvars
          [] e.ev = "inv"    -> Step([op |-> "inv", c |-> e.c, h |-> e.h, fail |-> e.fail, pre |-> e.pre])
-                               /\ UNCHANGED gor
-         [] e.ev = "end"    -> Step([op |-> "end", c |-> e.c]) /\ UNCHANGED gor
-         [] e.ev = "ret"    -> Step([op |-> "ret", c |-> e.c, r |-> e.r]) /\ UNCHANGED gor
-         [] e.ev = "cancel" -> Step([op |-> "cancel", c |-> e.c]) /\ UNCHANGED gor
+                              
+         [] e.ev = "end"    -> Step([op |-> "end", c |-> e.c])
+         [] e.ev = "ret"    -> Step([op |-> "ret", c |-> e.c, r |-> e.r])
+         [] e.ev = "cancel" -> Step([op |-> "cancel", c |-> e.c])
          [] OTHER -> FALSE
 
 (* Silent steps.  Stop closing a lane before it returns matters only to a    *)
@@ -105,7 +99,7 @@ Consume ==
 (* who may be told "closed"), so it is inferred only then.                  *)
 Silent ==
   /\ pos <= Len(TraceLog) /\ TraceLog[pos].ev # "reset"
-  /\ UNCHANGED <<pos, gor>>
+  /\ UNCHANGED pos
   /\ \/ \E c \in Calls :
           \/ Step([op |-> "skip", c |-> c])
           \/ \E r \in {"ok", "full", "closed"}, x \in LaneIds :
